@@ -210,6 +210,50 @@ pub fn decode_chunks(dec: &str, input: &[u8], sizes: &[usize]) -> (Vec<Value>, u
     }
 }
 
+/// the whole stream behind ONE buffered reader whose internal buffer is smaller than most sequences (several
+/// non-empty fills may happen within one decode call); decode until nothing is left
+pub fn decode_reader(dec: &str, input: &[u8], cap: usize) -> (Vec<Value>, usize) {
+    use std::io::BufRead;
+    let mut r = std::io::BufReader::with_capacity(cap, std::io::Cursor::new(input.to_vec()));
+    let mut got = Vec::new();
+    let mut guard = 0usize;
+    if dec == "event" {
+        let mut d = TTYEventDecoder::new();
+        loop {
+            guard += 1;
+            assert!(guard < 1_000_000, "decoder does not terminate");
+            match d.decode(&mut r).unwrap() {
+                Some(e) => got.push(ev_desc(&e)),
+                None => {
+                    if r.fill_buf().unwrap().is_empty() {
+                        break;
+                    }
+                }
+            }
+        }
+        let mut more = Vec::new();
+        d.decode_into(&[][..], &mut more).unwrap();
+        (got, more.len())
+    } else {
+        let mut d = TTYCommandDecoder::new();
+        loop {
+            guard += 1;
+            assert!(guard < 1_000_000, "decoder does not terminate");
+            match d.decode(&mut r).unwrap() {
+                Some(e) => got.push(cmd_desc(&e)),
+                None => {
+                    if r.fill_buf().unwrap().is_empty() {
+                        break;
+                    }
+                }
+            }
+        }
+        let mut more = Vec::new();
+        d.decode_into(&[][..], &mut more).unwrap();
+        (got, more.len())
+    }
+}
+
 /// c03-prod: production automata (hook 2).  One output line per input line.
 pub fn prod(args: &[String]) {
     let seed = arg_u64(args, "--seed", 1);
@@ -260,11 +304,65 @@ pub fn prod(args: &[String]) {
                 let (got, tail) = decode_chunks(&dec, &input, &sizes);
                 runs.push(json!({"chunks": sizes, "got": got, "tail": tail}));
             }
+            for cap in [2usize, 5] {
+                let (got, tail) = decode_reader(&dec, &input, cap);
+                runs.push(json!({"chunks": [cap], "reader": "BufReader", "got": got, "tail": tail}));
+            }
             (table, slices, runs)
         });
         match res {
             Ok((table, slices, runs)) => out.rec(&json!({"id": id, "dec": dec, "input": input, "outcome": "ok", "table": table, "slices": slices, "runs": runs})),
             Err(m) => out.rec(&json!({"id": id, "dec": dec, "input": input, "outcome": "panic", "msg": m, "table": [], "slices": [], "runs": []})),
+        }
+    }
+}
+
+/// c03-long: recognised sequences far longer than any internal buffer (bracketed paste, kitty response, OSC reply of
+/// 5 000 .. 70 000 bytes) between ordinary keys, decoded whole, in 1024-byte reads (what the terminal loop uses), in
+/// 100-byte reads, byte-wise (shorter ones) and through a buffered reader: the events must not depend on the cut.
+pub fn long(args: &[String]) {
+    let seed = arg_u64(args, "--seed", 1);
+    let mut rnd = Rng::new(seed ^ 0xc03);
+    let mut out = Out::new();
+    let mut id = 0u64;
+    for k in 0..6usize {
+        let n = [4097usize, 5000, 6000, 9000, 20000, 70000][k] + rnd.below(50);
+        let body: Vec<u8> = (0..n).map(|i| b'a' + ((i * 7 + k) % 26) as u8).collect();
+        let cases: Vec<(&str, Vec<u8>, usize)> = vec![
+            ("paste", [b"x\x1b[200~".to_vec(), body.clone(), b"\x1b[201~y\x1b[A".to_vec()].concat(), 4),
+            ("kitty", [b"x\x1b_Gi=31;".to_vec(), body.clone(), b"\x1b\\y".to_vec()].concat(), 3),
+            ("termcap", [b"\x1bP1+r544e=".to_vec(), body.iter().flat_map(|b| [b"0123456789abcdef"[(*b / 16) as usize], b"0123456789abcdef"[(*b % 16) as usize]]).collect::<Vec<u8>>(), b"\x1b\\z".to_vec()].concat(), 2),
+        ];
+        for (kind, input, expected) in cases {
+            let res = guarded(|| {
+                let mut runs = Vec::new();
+                let mut sizes_list: Vec<(String, Vec<usize>)> = vec![("whole".into(), vec![input.len()])];
+                for c in [1024usize, 100, 4096, 4095] {
+                    let mut v = vec![c; input.len() / c];
+                    if input.len() % c != 0 {
+                        v.push(input.len() % c);
+                    }
+                    sizes_list.push((format!("{c}"), v));
+                }
+                if input.len() < 10000 {
+                    sizes_list.push(("bytes".into(), vec![1; input.len()]));
+                }
+                let digest = |got: &Vec<Value>| -> Vec<String> {
+                    got.iter().map(|e| { let d = e["d"].as_str().unwrap_or(""); format!("{}:{}:{}", e["k"].as_str().unwrap_or(""), d.len() + e["b"].as_array().map(|b| b.len()).unwrap_or(0), &d[..d.len().min(24)]) }).collect()
+                };
+                for (name, sizes) in sizes_list {
+                    let (got, tail) = decode_chunks("event", &input, &sizes);
+                    runs.push(json!({"cut": name, "digest": digest(&got), "tail": tail}));
+                }
+                let (got, tail) = decode_reader("event", &input, 1024);
+                runs.push(json!({"cut": "BufReader(1024)", "digest": digest(&got), "tail": tail}));
+                runs
+            });
+            match res {
+                Ok(runs) => out.rec(&json!({"id": id, "kind": kind, "n": input.len(), "expected": expected, "runs": runs, "panic": ""})),
+                Err(m) => out.rec(&json!({"id": id, "kind": kind, "n": input.len(), "expected": expected, "runs": [], "panic": m})),
+            }
+            id += 1;
         }
     }
 }
